@@ -449,7 +449,8 @@ class Extractor:
 # ----------------------------------------------------------------------------- instantiation
 # one representative per class of float spellings (str(float)): D.D, -D.D, D.De-DD, D.0, long mantissa with exponent,
 # 17 significant digits, De-DD and De+DD (no decimal point)
-SAMPLE_FLOATS = ["0.1", "-2.25", "1.5e-07", "3.0", "-4.000000000000001e+16", "0.30000000000000004", "7.0", "1e-07", "-2e+22"]
+SAMPLE_FLOATS = ["0.1", "-2.25", "1.5e-07", "3.0", "-4.000000000000001e+16", "0.30000000000000004", "7.0", "1e-07", "-2e+22",
+                 "1.2345678901234567e-06", "0.012345678901234568", "123456789.12345678"]
 
 
 class Instance:
